@@ -371,8 +371,37 @@ fixedArrayFromBuffer (PyObject *obj)
         throw std::invalid_argument ("Unsupported buffer type");
     }
 
+    //  The buffer must describe exactly a C-contiguous array of the element
+    // type: same scalar type and size, same number of dimensions and, for
+    // vector types, the same inner extent.  Anything else would be
+    // reinterpreted, or read or written out of bounds by the memcpy below.
+    using T = typename ArrayT::BaseType;
+    const char *format = view.format;
+    if (format[0] == '@' || format[0] == '<')
+        ++format;
+    const char *expected = PyFormat<T>();
+    const bool sameScalar =
+        format[0] != '\0' && format[1] == '\0' &&
+        (format[0] == expected[0] ||
+         ((format[0] == 'l' || format[0] == 'q') &&
+          (expected[0] == 'l' || expected[0] == 'q')));
+    const Py_ssize_t width = FixedArrayWidth<T>::value;
+    const int dimensions   = FixedArrayDimension<T>::value;
+    if (!sameScalar ||
+        view.itemsize != Py_ssize_t (FixedArrayAtomicSize<T>::value) ||
+        view.ndim != dimensions ||
+        view.shape == nullptr ||
+        (dimensions > 1 && view.shape[1] != width) ||
+        !PyBuffer_IsContiguous (&view, 'C') ||
+        view.len != view.shape[0] * width * view.itemsize)
+    {
+        PyBuffer_Release(&view);
+        throw std::invalid_argument ("Buffer does not match the element type, dimensions or layout of the array");
+    }
+
     ArrayT *array = new ArrayT (view.shape[0], PyImath::UNINITIALIZED);
-    memcpy (reinterpret_cast<void*>(&array->direct_index(0)), view.buf, view.len);
+    if (view.len > 0)
+        memcpy (reinterpret_cast<void*>(&array->direct_index(0)), view.buf, view.len);
     PyBuffer_Release(&view);
 
     return array;
